@@ -144,12 +144,55 @@ func checkNames(p *Program, r *Report) {
 		}
 		checkLookupSound(p, r, prefix)
 		val := findByCallees(p, "addition validator", funcKey(exact), funcKey(prefix))
+		// when the per-name part was split off, the loop over the additions is in
+		// its caller: analyse that, with the per-name part inlined
+		hasLoop := func(f *ssa.Function) bool {
+			for _, b := range f.Blocks {
+				for _, su := range b.Succs {
+					if su.Dominates(b) {
+						return true
+					}
+				}
+			}
+			return false
+		}
+		callsValidatorInLoop := false
+		for _, ci := range callsDirect(val, funcKey(validator)) {
+			for _, b := range val.Blocks {
+				for _, su := range b.Succs {
+					if su.Dominates(b) && su.Dominates(ci.Block()) {
+						callsValidatorInLoop = true
+					}
+				}
+			}
+		}
+		inline := map[string]bool{}
+		if !callsValidatorInLoop {
+			var callers []*ssa.Function
+			for _, g := range p.Funcs {
+				if g != val && g.Parent() == nil && directCallees(g)[funcKey(val)] && hasLoop(g) {
+					callers = append(callers, g)
+				}
+			}
+			if len(callers) == 1 {
+				inline[funcKey(val)] = true
+				val = callers[0]
+			}
+		}
+		// small string helpers (parent directory of a name) are part of the walk
+		for _, g := range p.Funcs {
+			if g.Parent() == nil && g.Signature.Recv() == nil && g.Signature.Params().Len() == 1 && g.Signature.Results().Len() == 1 &&
+				types.TypeString(g.Signature.Params().At(0).Type(), nil) == "string" && types.TypeString(g.Signature.Results().At(0).Type(), nil) == "string" && g != validator {
+				inline[funcKey(g)] = true
+			}
+		}
 		fk := funcKey(val)
 		cfg := &simCfg{
 			Event:           map[string]bool{funcKey(exact): true, funcKey(prefix): true, funcKey(validator): true},
 			Pure:            map[string]bool{"path.Split": true, "strings.TrimSuffix": true, "strings.LastIndexByte": true, "strings.LastIndex": true, "path.Dir": true},
 			Keep:            map[string]bool{funcKey(exact): true, funcKey(prefix): true},
 			NoInlineDefault: true,
+			Inline:          inline,
 		}
 		c, _ := runSim(p, val, cfg, nil)
 		n := 0
@@ -257,8 +300,8 @@ func checkNames(p *Program, r *Report) {
 		chk := p.MustFunc("(*Stack).checkAddition")
 		fk := funcKey(chk)
 		cfg := &simCfg{
-			Event:  map[string]bool{"validateRefRecordAddition": true, "NewReader": true, "(*Reader).SeekRef": true, "(*Iterator).NextRef": true, "NewFileBlockSource": true},
-			Opaque: map[string]bool{"(*Reader).Close": true, "(*Stack).Merged": true},
+			Event:  map[string]bool{"validateRefRecordAddition": true, "NewReader": true, "(*Reader).SeekRef": true, "method:(Table).SeekRef": true, "(*Iterator).NextRef": true, "NewFileBlockSource": true},
+			Opaque: map[string]bool{"(*Reader).Close": true, "(*Stack).Merged": true, "fmt.Errorf": true},
 			Keep:   map[string]bool{"validateRefRecordAddition": true},
 		}
 		c, _ := runSim(p, chk, cfg, nil)
@@ -282,6 +325,9 @@ func checkNames(p *Program, r *Report) {
 			}
 			// the table read back is the one about to be listed, from its first ref
 			sk := hasEvent(s.Events, "(*Reader).SeekRef")
+			if sk == nil {
+				sk = hasEvent(s.Events, "method:(Table).SeekRef") // read through a helper taking a Table
+			}
 			tab := mk("param", fk+"."+chk.Params[1].Name(), nil)
 			nr := hasEvent(s.Events, "NewReader")
 			okRead := sk != nil && sk.Args[1].isConst() && sk.Args[1].Aux == `""` && nr != nil && nr.Args[1] == tab
@@ -356,7 +402,7 @@ func checkLookupSound(p *Program, r *Report, prefix *ssa.Function) {
 		switch {
 		case res == tTrue:
 		case res == tFalse:
-			if lastNext == nil || lastNext.Op != "tuple" || s.St.truth(lastNext.Args[0]) != 0 {
+			if (lastNext == nil || lastNext.Op != "tuple" || s.St.truth(lastNext.Args[0]) != 0) && !exhaustedThroughPhi(p, s.St) {
 				bad = "the lookup answers \"no ref under this prefix\" on a path where the iterator was not exhausted (for instance right after a record the transaction deletes): later live refs under the prefix are never looked at"
 				w = witnessOf(p, s.St.trace)
 			}
@@ -391,4 +437,87 @@ func checkLookupSound(p *Program, r *Report, prefix *ssa.Function) {
 		r.ok("LOOKUP-SOUND", key, fmt.Sprintf("%d successful returns: false only after exhaustion, otherwise HasPrefix of an undeleted record", n))
 	}
 	r.floor("LOOKUP-SOUND", n, 3, "successful returns of the prefix lookup")
+}
+
+// exhaustedThroughPhi: the path holds "false" for a loop-carried variable all
+// of whose incoming values are the ok result of Iterator.NextRef (directly, or
+// through an in-package helper that returns that result or the constant
+// false): the iterator ran out, even though the last call's own result term is
+// not the one the branch tested.
+func exhaustedThroughPhi(p *Program, st *State) bool {
+	isNextOk := func(v ssa.Value) bool { return false }
+	var okValue func(v ssa.Value, depth int) bool
+	okValue = func(v ssa.Value, depth int) bool {
+		if depth > 4 {
+			return false
+		}
+		switch x := v.(type) {
+		case *ssa.Const:
+			return x.Value != nil && x.Value.ExactString() == "false"
+		case *ssa.Extract:
+			call, ok := x.Tuple.(*ssa.Call)
+			if !ok {
+				return false
+			}
+			cal := call.Call.StaticCallee()
+			if cal == nil {
+				return false
+			}
+			if funcKey(cal) == "(*Iterator).NextRef" || funcKey(cal) == "(*Iterator).NextLog" {
+				return x.Index == 0
+			}
+			if cal.Pkg != p.Pkg {
+				return false
+			}
+			// helper: every return passes such a value at this position
+			n := 0
+			for _, b := range cal.Blocks {
+				if ret, ok := b.Instrs[len(b.Instrs)-1].(*ssa.Return); ok {
+					n++
+					if x.Index >= len(ret.Results) || !okValue(ret.Results[x.Index], depth+1) {
+						return false
+					}
+				}
+			}
+			return n > 0
+		case *ssa.Phi:
+			for _, e := range x.Edges {
+				if e != v && !okValue(e, depth+1) {
+					return false
+				}
+			}
+			return true
+		}
+		return false
+	}
+	_ = isNextOk
+	for _, k := range sortedFactKeys(st) {
+		if st.facts[k] {
+			continue
+		}
+		t := st.fterm[k]
+		if t == nil || t.Op != "loopvar" || len(t.Args) == 0 {
+			continue
+		}
+		// the loop mark names the function: .../<funcKey>#b<n>
+		id := t.Args[0].Aux
+		if i := strings.LastIndex(id, "#b"); i >= 0 {
+			id = id[:i]
+		}
+		if i := strings.LastIndex(id, "/"); i >= 0 {
+			id = id[i+1:]
+		}
+		fn := p.Func(id)
+		if fn == nil {
+			continue
+		}
+		for _, b := range fn.Blocks {
+			for _, ins := range b.Instrs {
+				if ph, ok := ins.(*ssa.Phi); ok && ph.Name() == t.Aux && okValue(ph, 0) {
+					return true
+				}
+			}
+		}
+	}
+	return false
 }
